@@ -187,3 +187,32 @@ claim("C20",
       "the oracle for the dumped metrics; U+00AD (zero-advance format character) is outside the domain.",
       "Rocq proof (fold invariants + finite reflection on dumped font metrics) + exact differential check at the reference size",
       "DESIGN.md section 6 C20")
+claim("C14",
+      "Theorems (Coq, unbounded over histories): in the model of the encoder's process shell (Model/Ctx.v: the colour context "
+      "is set for every path, the encoder runs, the context is always cleared) the result of encoding t after ANY history of "
+      "constructions and successful or failing encodes, from any starting context, is enc (Some (pal t)) t - its fresh-process "
+      "result; two consecutive encodes agree; no history leaves a context behind; the shell before the repairs is refuted by a "
+      "witness. The encoder inside the shell is the Gallina function Document.encode (pure by construction, tied to the code by "
+      "strict token correspondence on the pool). Against the implementation: every history (exhaustive length 1, and 2 in the "
+      "thorough tier; sampled 2-4; failing-encode-then-X) is run in a FRESH interpreter, with and without shared component "
+      "objects, and every encode in it must equal (sha1 / exception class) the same document encoded alone in a fresh "
+      "interpreter (two hash seeds); the context observed by a recorder must equal the model's run; the caller's DataFrames "
+      "must be equal before and after.",
+      "Object aliasing between documents and StrategyRegistry are not in the Gallina model (history runs only); pool of 10 documents.",
+      "Rocq proof (induction over histories of a state-machine model of the colour context) + fresh-interpreter history runs "
+      "compared with a subprocess baseline and with the model's context trace",
+      "DESIGN.md section 6 C14")
+claim("C15",
+      "Theorems (Coq, unbounded over schedules and thread counts): with one context per thread (Model/Ctx.v: tctx), what the "
+      "colour look-ups of thread t observe in ANY interleaving of context events equals what they observe when t's events run "
+      "alone, and every look-up made during an encode of d sees d's own palette; with a single shared context the statement is "
+      "refuted by a witness schedule. Against the implementation: real threads under a deterministic baton scheduler that "
+      "preempts at library call boundaries (sys.settrace); one preemption at every boundary (thorough: exhaustive for three "
+      "document pairs in both directions; quick: all boundaries around context reads/writes plus a sample) and sampled 2-3 "
+      "preemptions over 2-3 threads; every thread's string must equal its solo string; the recorded read/write trace of the "
+      "context is replayed through the model's observe and must predict every value the look-ups saw.",
+      "The model covers the colour context only (the one piece of state the anchors name); preemption inside a function body "
+      "and non-rtflite libraries' thread safety are outside the model and the scheduler.",
+      "Rocq proof (interleaving-independence of a per-thread map by induction over schedules) + systematic schedule "
+      "enumeration with a deterministic scheduler, traces replayed through the extracted model",
+      "DESIGN.md section 6 C15")
